@@ -6,13 +6,14 @@ from rules import dtdcommon as D
 UNITS = ['parsec/interfaces/dtd/insert_function.c', 'parsec/interfaces/dtd/overlap_strategies.c', 'parsec/interfaces/dtd/parsec_dtd_data_flush.c']
 
 
-def check_chain_index(ctx):
+def check_chain_index(ctx, rd=None):
     """parsec_dtd_ordering_correctly walks the chain of readers behind a completed writer with a pair (task, flow index):
     the index names a flow *of that task*.  When it steps to the next task in line, the index variable is reloaded from the
     current task's descriptor - from there on it names a flow of the NEXT task, and the current task must be addressed
     with the index saved before the step.  Pairing the advanced index with the old task clears / reads the link of an
     unrelated flow: a successor is activated twice or never (results differ from sequential order)."""
-    rd = ctx.rule('R03.d', 'chain walk: after the flow index was advanced to the next task in line, the current task is addressed only with the saved index', floor=4)
+    if rd is None:
+        rd = ctx.rule('R03.d', 'chain walk: after the flow index / operation type were advanced to the next task in line, the current task is addressed only with the saved index and never tested together with them', floor=4)
     u = ctx.extract(UNITS[1])
     f = u.func('parsec_dtd_ordering_correctly'); ctx.functions_analysed.add(f.name)
     # the advancing store: I = (...(T...)[I]...)->flow_index, with T a local task pointer
@@ -69,6 +70,30 @@ def check_chain_index(ctx):
         rd.expect(not st, 'chain-index:%s:%d' % (ev.kind, f.line_of(ev.nid) - f.line), ev.loc,
                   'parsec_dtd_ordering_correctly addresses %s with %s after %s was advanced to the next task in line (at %s): that index names a flow of the next task, not of %s'
                   % (T, I, I, a_ev.loc, T), note='%s paired with %s while it still names a flow of %s' % (T, I, T))
+    # companions advanced in the same step (e.g. the operation type of the next task's flow): locals assigned, in the block of the
+    # advancing store, from an expression that goes through the next task or the advanced index
+    companions = set()
+    nxt = None
+    for ev in f.block_events(a_ev.block):
+        if ev.kind == 'store' and ev is not a_ev and ev.lhs.k == 'ref' and ev.rhs is not None and f.block_events(a_ev.block).index(ev) > f.block_events(a_ev.block).index(a_ev):
+            if any(x.s == I for x in ev.rhs.walk()):
+                companions.add(ev.lhs.s)
+    for bid in f.blocks:
+        c = f.cond(bid)
+        if c is None:
+            continue
+        refs = {x.s for x in c.walk() if x.k == 'ref'}
+        full = f.expr(f.blocks[bid]['cond']) if f.blocks[bid].get('cond') is not None else c
+        refs_full = {x.s for x in full.walk() if x.k == 'ref'}
+        if T in refs_full and (refs_full & (companions | {I})):
+            st = at_end(bid)
+            if st is None:
+                continue
+            n += 1
+            rd.expect(not st, 'chain-index:cond:%d' % (f.line_of(f.blocks[bid]['cond']) - f.line), f.loc(f.blocks[bid]['cond']),
+                      'parsec_dtd_ordering_correctly tests %s together with %s after the step to the next task in line: %s then describes the next task, not %s'
+                      % (T, sorted(refs_full & (companions | {I})), sorted(refs_full & (companions | {I})), T),
+                      note='condition on %s and %s evaluated while they describe the same task' % (T, sorted(refs_full & (companions | {I}))))
     # the link of the current reader is cleared with the saved index
     saved = [s_ for s_ in f.stores() if s_.lhs.k == 'ref' and s_.rhs is not None and s_.rhs.s == I and s_.op == '=' and s_.lhs.s != I]
     clr = [s_ for s_ in f.stores() if s_.lhs.k == 'mem' and s_.lhs.n == 'task' and s_.rhs is not None and s_.rhs.cv == 0 and any(y.s == T for y in s_.lhs.walk())]
